@@ -23,6 +23,7 @@ import (
 type Job struct {
 	Wire  *WireJob  `json:"wire,omitempty"`
 	Admit *AdmitJob `json:"admit,omitempty"`
+	Late  *LateJob  `json:"late,omitempty"`
 }
 
 // Vio is one violation found by a worker.
@@ -52,6 +53,8 @@ func serve(raw json.RawMessage) any {
 		return runWire(*j.Wire)
 	case j.Admit != nil:
 		return runAdmit(*j.Admit)
+	case j.Late != nil:
+		return runLate(*j.Late)
 	}
 	return JobOut{SetupErr: "empty job"}
 }
@@ -73,6 +76,8 @@ func jobName(j Job) string {
 			return "admission/" + j.Admit.Kind + "-" + j.Admit.Mode
 		}
 		return "admission/" + j.Admit.Kind
+	case j.Late != nil:
+		return fmt.Sprintf("late-join/%s/start-%d/join-%d", j.Late.Transport, j.Late.Start, j.Late.Join)
 	}
 	return "?"
 }
@@ -88,6 +93,7 @@ func main() {
 		"B (wire, real Server with TLSConfig + real Client with rtsps on memnet, medias with 2 formats = 2 SSRCs per MIKEY message, sequence numbers wrap in every stream): clear-payload pass = flows {play, record, play with back channel} x {udp, tcp over real TLS, tcp with the TLS layer replaced by the identity at the library's seams so that interleaved frames are visible} x every write entry point x every format, 8 (thorough 32) patterned packets each + positive controls {play, record} x {udp, tcp} without TLS; " +
 		"tamper pass = targets {play: s2c rtp, s2c rtcp, c2s rtcp; record: c2s rtp, c2s rtcp, s2c rtcp; back channel: c2s rtp; thorough adds session-level s2c rtp/rtcp and back-channel c2s rtcp} x {udp datagrams, interleaved frames of the identity-TLS variant}; alterations of one protected packet: quick = every bit of the first 48 and the last 16 bytes (= every bit of the 54/58-byte packets), thorough = every bit plus every byte set to 0x00 and to 0xFF (identity alterations skipped) and a second RTP shape (CSRC + one-byte header extension, 96-byte payload, 130 bytes protected); plus one bit of each SSRC byte of the FIRST packet of a stream (4 fresh worlds, play s2c and record c2s). " +
 		"C (admission): server TLS {off,on} x mode {play, record} x profile {AVP, SAVP} x {udp, tcp interleaved, multicast request} through a raw peer (sysx.Peer / the same over crypto/tls), 6 preference lists of two transports per server, the real client scheme {rtsp, rtsps} x protocol {auto, udp, tcp} against both servers, and redirects {301,302,303,304,305} x Location {rtsp other port, rtsp same port, rtsp with user info, RTSP upper case} from an rtsps URL, with controls (same-scheme redirect followed, on both servers). " +
+		"D (late joiners on the wire): secure stream written from sequence number 65530 (thorough: also 65535, 65524) for 10 (14) packets across the wrap x transport {udp, tcp over TLS, tcp identity-TLS} x EVERY join point j = 0..N (a fresh rtsps reader does DESCRIBE/SETUP/PLAY after exactly j packets; nothing is written while it joins), then the remaining packets + 4: every packet written after PLAY completed must be delivered decrypted with the written payload, no decode error. " +
 		"non-trivial = every case (A: the counter advances in each stream; B: each alteration is a distinct (target, transport, shape, byte, bit/value)); distinct = the tuple itself")
 	run.Assume("A: with a starting roll-over counter of 2^32-1 the sender may refuse to protect the packet whose 48-bit index would wrap (RFC 3711 section 9.2, key exhausted); everything before the wrap must round-trip. A late joiner is only exercised when the counter can advance")
 	run.Assume("the protected form is compared with the clear payload by substring search (A: the whole payload when >= 4 bytes; B: every 8-byte window of the constant 18-byte prefix of the 32-byte patterns); a coincidence has probability < 2^-32 per packet and the space is deterministic")
@@ -153,6 +159,7 @@ func main() {
 
 	// ---------------- parts B and C, worker processes
 	jobs := append(admitJobs(), wireJobs(run.Thorough())...)
+	jobs = append(jobs, lateJobs(run.Thorough())...)
 	anyJobs := make([]any, len(jobs))
 	for i := range jobs {
 		anyJobs[i] = jobs[i]
